@@ -151,6 +151,49 @@ BALOPS = [
     [C("CALL", "B", 1), Bop("SELF", "ADD"), C("CALL", "A", 1), Bop("SELF", "MUL"), E("STOP"), Bop("SELF", "POP"), E("SELFDESTRUCT", "E")],
 ]
 
+def RE(ref, val=0):
+    return {"t": "RECREATE", "ref": ref, "val": val}
+
+
+DEEP = {"t": "DEEP"}
+
+
+def limit_programs():
+    """The three remaining ways a frame fails: (a) init code returning exactly / more than the maximum code size, with
+    storage, log and endowment before the RETURN; (b) CREATE2 to an address that is taken (also after the first creation
+    self-destructed in the same transaction); (c) the call depth limit, reached by a self-recursive contract.  Returns
+    (program, sweep sites)."""
+    out = []
+    for kind in ("CREATE", "CREATE2"):
+        for how in ("RETMAX", "RETOVER"):
+            out.append(([C("CALL", "A"), K(kind, 1), S(1, 1), L, E(how), S(2, 2), E("STOP")], 1))
+            out.append(([C("CALL", "A", 1), C("CALL", "B"), K(kind, 1), S(1, 1), L, E(how), E("STOP"), L, E("STOP")], 1))
+            out.append(([C("CALL", "A"), C("DELEGATECALL", "B"), K(kind, 0), S(2, 1), E(how), L, E("STOP"), S(1, 0), E("RETURN")], 0))
+            out.append(([C("CALL", "A"), C("CALL", "B", 1), K(kind, 1), L, E(how), E("REVERT"), K(kind, 0), S(1, 2), E(how), E("STOP")], 0))
+        out.append(([C("CALL", "A"), C("CALL", "B"), S(1, 1), E("RETOVER"), C("STATICCALL", "C"), E("RETMAX"), K(kind, 0), E("RETMAX"), E("STOP")], 0))
+    # collisions: token 2 (or 3) is the first CREATE2, RE(...) repeats it from the same creator
+    out += [
+        ([C("CALL", "A"), K("CREATE2", 1), S(1, 1), E("RETURN"), RE(2, 1), S(2, 2), E("STOP")], 0),
+        ([C("CALL", "A"), K("CREATE2", 0), L, E("STOP"), RE(2, 0), RE(2, 1), L, E("STOP")], 0),
+        ([C("CALL", "A"), K("CREATE2", 1), L, E("SELFDESTRUCT", "E"), RE(2, 0), L, E("STOP")], 0),
+        ([C("CALL", "B", 1), K("CREATE2", 1), S(1, 2), E("SELFDESTRUCT", "SELF"), RE(2, 1), S(1, 1), E("RETURN")], 0),
+        ([C("CALL", "A"), C("DELEGATECALL", "B"), K("CREATE2", 0), S(1, 1), E("RETURN"), E("STOP"), RE(3, 0), S(2, 2), E("STOP")], 0),
+        ([C("CALL", "A"), K("CREATE2", 0), E("RETMAX"), C("CALLCODE", "C", 0), RE(2, 0), L, E("STOP"), E("STOP")], 0),
+        ([C("CALL", "A"), K("CREATE2", 1), S(1, 1), E("RETURN"), C("CALL", "B"), C("CALL", "A"), RE(2, 1), S(2, 1), E("STOP"), E("REVERT"), E("STOP")], 0),
+        ([C("CALL", "A"), K("CREATE2", 0), E("RETURN"), C("STATICCALL", "A"), RE(2, 0), E("STOP"), L, E("STOP")], 0),
+    ]
+    # depth limit
+    out += [
+        ([C("CALL", "A"), S(1, 1), DEEP, S(2, 2), E("STOP")], 0),
+        ([C("CALL", "A", 1), C("CALL", "B", 1), DEEP, L, E("STOP"), DEEP, E("STOP")], 0),
+        ([C("CALL", "A"), C("STATICCALL", "B"), DEEP, E("STOP"), L, E("STOP")], 0),
+        ([C("CALL", "A"), C("CALL", "B"), DEEP, S(1, 1), E("REVERT"), L, E("STOP")], 0),
+        ([C("CALL", "A"), C("DELEGATECALL", "C"), DEEP, E("INVALID"), DEEP, E("STOP")], 0),
+        ([C("CALL", "A"), K("CREATE", 1), DEEP, S(1, 1), E("RETURN"), E("STOP")], 0),
+    ]
+    return out
+
+
 def stale_storage_programs():
     """A slot that holds a value from an earlier transaction is cleared / rewritten by the outer frame; a nested frame
     in the same storage context (DELEGATECALL, CALLCODE, re-entrant CALL) writes it again and fails: the slot must read
@@ -232,7 +275,8 @@ def generate(ctx):
         behs += sim[:(1200 if quick else 15000)]
     # hand-written nested programs, executed by the model for their predictions
     stale = stale_storage_programs()
-    hand = [(p, 3) for p in GIVEN] + [(p, 1) for p in precompile_programs()] + [(p, 0) for p in BALOPS] + [(p, 0) for p in stale]
+    hand = ([(p, 3) for p in GIVEN] + [(p, 1) for p in precompile_programs()] + [(p, 0) for p in BALOPS] + [(p, 0) for p in stale]
+            + limit_programs())
     both = {json.dumps(p, sort_keys=True) for p in stale}
     gv = ctx.tlc_must("EvmFrames", GIVEN_CFG, name="G_given", timeout=600, count=False,
                       files={"given.ndjson": "\n".join(json.dumps({"prog": p}) for p, _ in hand) + "\n"})
@@ -266,6 +310,8 @@ def generate(ctx):
                     t["v"] = rng.choice(FAIL_VARIANTS)
                 elif t["t"] == "END" and t["how"] == "OOG":
                     t["v"] = rng.choice(OOG_VARIANTS)
+                elif t["t"] == "END" and t["how"] == "RETOVER":
+                    t["v"] = rng.choice(["RETOVER", "RETHUGE"])
     # the stale-storage programs run in both set-ups (committed storage / storage finalised by the earlier transaction)
     for b in [b for b in out if b.pop("both", False)]:
         out.append(dict(b, setup="second" if b["setup"] == "fresh" else "fresh"))
